@@ -8,3 +8,15 @@ Theorem C05_rest_no_ready_left : forall c s t, In t (pending (submit_phase sched
   at_limit c (active (submit_phase sched_params c s)) t.
 Proof. exact (fun c => rest_no_ready_left sched_params c eq_refl). Qed.
 Print Assumptions C05_rest_no_ready_left.
+
+(* ---- worker processes: after every submit and every wait, no future is left pending while a worker slot is
+   free, i.e. the number of worker processes is min(max_workers, submitted and unfinished futures). *)
+Require Import LT.Model.Exec LT.Proofs.ExecProofs.
+Theorem C05_rest_workers_full : forall e o, List.length (running e) <= maxw e ->
+  match o with
+  | XSubmit | XWait _ => pendq (exstep start_policy_src e o) <> [] ->
+                         List.length (running (exstep start_policy_src e o)) = maxw (exstep start_policy_src e o)
+  | _ => True
+  end.
+Proof. exact (rest_full start_policy_src eq_refl). Qed.
+Print Assumptions C05_rest_workers_full.
